@@ -155,7 +155,7 @@ def run_random_case(ctx, kind_, idx):
         with fp_watch(ctx):
             if mode == "function":
                 narrow = None
-                if rng.integers(0, 10) == 0:
+                if rng.integers(0, 10) == 0 and kind_ != "huge":
                     # abscissae kept in a narrow signed integer type and using its whole range (offsets around a set
                     # point): the SPAN x[-1] - x[0] does not fit the type
                     dt = [np.int8, np.int16, np.int32][int(rng.integers(0, 3))]
